@@ -27,6 +27,12 @@ def run(repo, rep):
     rep.clause("C13-c", "deliberate raises on the driver path are VelaError subclasses (or the reviewed table); main() converts VelaError into exit status 1; readers convert parse errors")
     rep.clause("C13-d", "unsupported operators fall back (checkers return False, never raise)")
     rep.undecided("totality over all valid models and option combinations (index errors on odd shapes, asserts that valid inputs can trip)")
+    from .shared import mutated_iteration_lint, none_skip_lint
+
+    if mutated_iteration_lint(repo, rep, "C13-d", ["extract_npu_subgraphs", "nn_graph", "pass_packing", "graph_optimiser_util", "tflite_graph_optimiser"]) < 2:
+        raise AnalysisError("loops that shrink the collection they iterate were not found (extract_npu_subgraphs)")
+
+    none_skip_lint(repo, rep, "C13-d", ['mark_tensors'])
     cg = CallGraph(repo)
     reach = cg.reachable(ENTRY)
     for e in ENTRY:
@@ -49,13 +55,11 @@ def run(repo, rep):
     rep.clause("C13-h", "the scale derivation never hands the bias / scale packer a shift it asserts against (range guard of quantise_scale == 0 <= shift < 64) [rule shared with C09-a]")
     from . import c09
 
-    with rep.borrow({"C09-a": "C13-h"}):
-        c09.run(repo, rep)
+    rep.run_borrowed(c09, {"C09-a": "C13-h"}, repo)
     rep.clause("C13-f", "the writer can look up every operator code it registered (no KeyError while writing a model with several third-party custom operators) [rule shared with C11-d2]")
     from . import c11
 
-    with rep.borrow({"C11-d2": "C13-f"}):
-        c11.run(repo, rep)
+    rep.run_borrowed(c11, {"C11-d2": "C13-f"}, repo)
 
 
 # ------------------------------------------------------------------ a
